@@ -317,6 +317,14 @@ fn c07_children(ctx: &Ctx, rep: &mut Report, label: &str, named: &[(String, Stri
     rep.absorb(label, RunOutcome { stats: st, failures: fails });
 }
 
+/// Second opinion on a suspected hang: the text alone, in a fresh child process, with a long limit
+/// (VERIF_CONFIRM_TIMEOUT seconds, default 300). true = the child did not return either.
+pub fn confirm_hang(root: &std::path::Path, text: &str) -> bool {
+    let limit = std::env::var("VERIF_CONFIRM_TIMEOUT").ok().and_then(|s| s.parse().ok()).unwrap_or(300);
+    let ctx = Ctx { prop: "C07".into(), tier: Tier::Quick, seed: 0, root: root.to_path_buf(), threads: 1, scale: 1.0, shrink_iters: 0 };
+    matches!(run_in_child(&ctx, "c07", &[text.to_string()], Duration::from_secs(limit)), ChildVerdict::Timeout(_))
+}
+
 /// Generates `n` values of a strategy deterministically (for batches run outside the proptest runner).
 pub fn generate_values<S: Strategy>(strategy: &S, n: usize, seed: u64) -> Vec<S::Value> {
     let mut cfg = Config::default();
@@ -327,7 +335,16 @@ pub fn generate_values<S: Strategy>(strategy: &S, n: usize, seed: u64) -> Vec<S:
 }
 
 pub fn c07_replay(case: &Value) -> Result<(), Failure> {
-    c07_judge(&case_text(case)?).map(|_| ())
+    let text = case_text(case)?;
+    // in a child process first, so that a hanging input cannot hang the replay
+    let root = std::path::PathBuf::from(crate::gen::corpus_dir());
+    let ctx = Ctx { prop: "C07".into(), tier: Tier::Quick, seed: 0, root, threads: 1, scale: 1.0, shrink_iters: 0 };
+    match run_in_child(&ctx, "c07", &[text.clone()], Duration::from_secs(60)) {
+        ChildVerdict::AllDone(_) => c07_judge(&text).map(|_| ()),
+        ChildVerdict::Died(_, how) => Err(Failure::new("abort", format!("the process running generate died ({how})"), case.clone())),
+        ChildVerdict::Timeout(_) => Err(Failure::new("does-not-terminate", "generate did not return within 60 s in a child process".into(), case.clone())),
+        ChildVerdict::Broken(e) => Err(Failure::internal("child-engine", e, Value::Null)),
+    }
 }
 
 pub const C07_RULE: &str = "texts of 9 families (decorated valid files, files with injected static violations, token edits, token soup, lexically bad atoms, malformed attributes, character soup, character mutations of generated and repository files) under random layouts, called in-process under catch_unwind; plus size-stress inputs within the stated bounds (2000 declarations, lists of hundreds of elements, type nesting 256, 64 KiB tokens/comments/whitespace, 30000 nested attribute brackets) and unusual well-formed grammars (variant-less enums, no terminals, unproductive / unreachable nonterminals, letter-less names), run in child processes on a default-size main-thread stack so that aborts and stack overflows are observed. Oracle: no panic, no death by signal. Non-trivial = the text reaches beyond the tokenizer (lexes) or contains a multi-byte character or an attribute; distinct = the text.";
